@@ -80,8 +80,8 @@ def merge(rep: Any, results: Sequence[Dict[str, Any]], sample_limit: int = 8) ->
             rep.ob(status, name, key)
         rep.merge_stats(queries=r["queries"], solver_s=r["solver_s"], paths=r["paths"],
                         stubs=r["stubs"])
-        for sig, what, body in r["viol"]:
-            rep.violation(sig, what, body)
+        for sig, what, body, *flags in r["viol"]:
+            rep.violation(sig, what, body, soft=bool(flags and flags[0] == "soft"))
         for s in r["samples"]:
             rep.sample(s, sample_limit)
         rep.coverage["selfchecked_paths"] = rep.coverage.get("selfchecked_paths", 0) + \
